@@ -260,6 +260,14 @@ def w_pairs(ctx, rng, i):
     else:
         if isinstance(a, taps.mod("menpo.transform.homogeneous.affine").Affine) and rng.random() < 0.3:
             a.decompose()
+        if rng.random() < 0.1:
+            # affine maps with repeated singular values (two axes stretched alike, the third differently - in every position)
+            import menpo.transform as _mt
+            sv = [[3.0, 3.0, 0.5], [2.0, 0.7, 0.7], [1.5, 1.5, 1.5], [4.0, 1.0, 4.0]][rng.integers(0, 4)][:d] if d == 3 else [[2.0, 2.0], [3.0, 0.5]][rng.integers(0, 2)]
+            hh = np.eye(d + 1)
+            hh[:d, :d] = gen.rotation_matrix(rng, d) @ np.diag(sv) @ gen.rotation_matrix(rng, d)
+            hh[:d, d] = rng.uniform(-3, 3, d)
+            _mt.Affine(hh).decompose()
         c = getattr(a, "compose_" + direction)(b)
         # the result is independent of later edits to the operands' parameters where it claims to be one transform
         import menpo.transform as mt
